@@ -106,7 +106,7 @@ def register(R):
   # ---- the caching wrapper of result_ (closure of _maybe_lru_cache: free variables lazy_obj_cache, fn) ----
   LF = 'ml_metrics/_src/chainables/lazy_fns.py'
   R.cls('LazyObject', dict(value='obj', _cache_result='bool', _lazy_result='bool', _id='int'), frozen=True)
-  R.cls('LazyFn', dict(value='obj', _cache_result='bool', _lazy_result='bool', _id='int'), frozen=True)
+  R.cls('LazyFn', dict(value='obj', _cache_result='bool', _lazy_result='bool', _id='int', args='obj', kwargs='obj'), frozen=True)
 
   @R.spec
   def app(it, a, k):              # the value the wrapped (uninterpreted) function returns for x
@@ -121,6 +121,16 @@ def register(R):
   @R.spec
   def fn_calls(it, a, k):         # how often the wrapped function was evaluated during this call
     return VInt(sum(1 for e in it.events if e[0] == 'callfn'))
+
+  # two traced calls are the same cache key iff they are the same object (id) or the same function applied to
+  # the same positional AND keyword arguments - otherwise a cached call could return another call's result
+  R.add(Contract(f'{LF}::LazyFn.__eq__', P, types=dict(self='LazyFn', other='LazyFn'), ret='bool',
+                 ensures=['result == (self._id == other._id or (self.value is other.value and self.args is other.args'
+                          ' and self.kwargs is other.kwargs))'],
+                 bounded='bounded_lazy_eval', note='values/args/kwargs are opaque here: `==` on them is identity of the opaque terms'))
+  R.add(Contract(f'{LF}::LazyObject.__eq__', P, types=dict(self='LazyObject', other='LazyObject'), ret='bool',
+                 ensures=['result == (self._id == other._id or (not self._cache_result and not other._cache_result and self.value is other.value))'],
+                 bounded='bounded_lazy_eval'))
 
   CW = ['lazy_obj_cache.currsize == len(lazy_obj_cache.data)', 'lazy_obj_cache.currsize >= 0', 'lru_wf(lazy_obj_cache.data)',
         'lazy_obj_cache.maxsize >= 1', 'lazy_obj_cache.currsize <= lazy_obj_cache.maxsize']
